@@ -10,8 +10,8 @@ META = dict(
     technique='TLA+ critical-section model checked exhaustively by TLC (with a broken variant as witness); TLC trace validation against the abstract condition variable of executions recorded from the real code',
     design='3/C03')
 
-MODES_Q = [('cv', 150), ('cvspin', 120)]
-MODES_T = [('cv', 2500), ('cvspin', 2000)]
+MODES_Q = [('cv', 150), ('cvspin', 120), ('ccv', 1000), ('ccvspin', 600)]
+MODES_T = [('cv', 2500), ('cvspin', 2000), ('ccv', 25000), ('ccvspin', 15000)]
 MC = [('MC_CondVar', 'MC_CondVar_mutex.cfg', 900), ('MC_CondVar', 'MC_CondVar_spin.cfg', 900)]
 
 
